@@ -117,6 +117,24 @@ def run_c14(res, tier, seed):
         reqs.append(f"lcall\t{h}"); meta.append(("lcall", d))
         reqs.append(f"posall\t{h}\t{ml}\t{mc}"); meta.append(("posall", d, ml, mc))
         reqs.append(f"endcols\t{h}\t{ml}"); meta.append(("endcols", d, ml))
+    # ranges as the server sends them (convert::to_range): every ordered pair of boundaries must be
+    # the client's positions of both ends
+    rreqs, rdocs = [], []
+    for d in ds:
+        if len(d) <= 40:
+            rreqs.append(f"rangeall\t{hexs(d)}"); rdocs.append(d)
+    rio, rmo = common.run_both_chunked(rreqs)
+    res.cov["evaluations"] += len(rreqs)
+    for rq, d, a, b in zip(rreqs, rdocs, rio, rmo):
+        if a != b:
+            res.disagreements.append((rq, a[:300], b[:300]))
+        bs = boundaries(strip_cr(d))
+        want = " ".join(f"{l1}:{c1}-{l2}:{c2}" for i, (_, l1, c1) in enumerate(bs) for (_, l2, c2) in bs[i:])
+        if a != want:
+            got = a.split(" "); exp = want.split(" ")
+            k = next((j for j in range(min(len(got), len(exp))) if got[j] != exp[j]), None)
+            res.add_violation("C14/to_range", f"a range the server sends is {got[k] if k is not None and k < len(got) else '?'} where the client's positions are {exp[k] if k is not None else '?'}",
+                              {"doc_hex": hexs(d), "doc": d})
     io, mo = common.run_both_chunked(reqs)
     res.cov["evaluations"] += len(reqs)
     distinct = set()
